@@ -136,32 +136,45 @@ func (h *ConsistentHash) Remove(node any) {
 
 	for i := 0; i < h.replicas; i++ {
 		hash := h.hashFunc([]byte(nodeRepr + strconv.Itoa(i)))
+		// only drop the key if the node really owns a virtual node on it,
+		// the hash might belong to another node or not be on the ring at all.
+		if !h.removeRingNode(hash, nodeRepr) {
+			continue
+		}
+
 		index := sort.Search(len(h.keys), func(i int) bool {
 			return h.keys[i] >= hash
 		})
 		if index < len(h.keys) && h.keys[index] == hash {
 			h.keys = append(h.keys[:index], h.keys[index+1:]...)
 		}
-		h.removeRingNode(hash, nodeRepr)
 	}
 
 	h.removeNode(nodeRepr)
 }
 
-func (h *ConsistentHash) removeRingNode(hash uint64, nodeRepr string) {
-	if nodes, ok := h.ring[hash]; ok {
-		newNodes := nodes[:0]
-		for _, x := range nodes {
-			if repr(x) != nodeRepr {
-				newNodes = append(newNodes, x)
-			}
+func (h *ConsistentHash) removeRingNode(hash uint64, nodeRepr string) bool {
+	nodes, ok := h.ring[hash]
+	if !ok {
+		return false
+	}
+
+	// each virtual node has its own entry and its own key, remove one at a time
+	for i, x := range nodes {
+		if repr(x) != nodeRepr {
+			continue
 		}
-		if len(newNodes) > 0 {
-			h.ring[hash] = newNodes
+
+		if len(nodes) > 1 {
+			h.ring[hash] = append(nodes[:i], nodes[i+1:]...)
 		} else {
 			delete(h.ring, hash)
 		}
+
+		return true
 	}
+
+	return false
 }
 
 func (h *ConsistentHash) addNode(nodeRepr string) {
